@@ -25,7 +25,7 @@ type c13Expr struct {
 
 var c13Env = map[string]any{
 	"n": 7, "m": 3, "z": 0, "digits": "21", "s": "hello", "t": "World", "e": "", "yes": true, "no": false,
-	"obj": map[string]any{"k": "kv", "num": 5, "flag": true}, "lst": []any{10, 20, 30}, "st": S2{X: 4, Y: "why"},
+	"obj": map[string]any{"k": "kv", "num": 5, "flag": true}, "lst": []any{10, 20, 30}, "st": S2{X: 4, Y: "why"}, "uni": "žába", "fl": 2.5,
 }
 
 type c13Gen struct {
@@ -296,6 +296,11 @@ func c13ExprCase(e *c13Expr, st c13Style, pos string) *Case {
 		tpl = "<p v-if=\"no\">n</p><p v-else-if=" + attrQ + src + attrQ + ">[[T]]</p><p v-else>[[F]]</p>"
 	case "show":
 		tpl = "<p v-show=" + attrQ + src + attrQ + ">x</p>"
+	// a bound attribute of a <template> tag binds a variable for the children: the same value as anywhere else
+	case "tplbound":
+		tpl = "<template :bv=" + attrQ + src + attrQ + "><p>[[{{ bv }}]]</p></template>"
+	case "tplbound-vif":
+		tpl = "<template v-if=\"yes\" :bv=" + attrQ + src + attrQ + "><p>[[{{ bv }}]]</p></template>"
 	}
 	want := e.eval()
 	pendingPages = append(pendingPages, pageCase("expr:"+pos, map[string]string{"p.vuego": tpl}, nil, "p.vuego", c13Env, "pos:"+pos))
@@ -333,14 +338,14 @@ func c13ExprCase(e *c13Expr, st c13Style, pos string) *Case {
 	}
 	out := res.Out
 	switch pos {
-	case "text":
+	case "text", "tplbound", "tplbound-vif":
 		m := regexp.MustCompile(`\[\[(.*?)\]\]`).FindStringSubmatch(out)
 		got := ""
 		if m != nil {
 			got = htmlUnescape(m[1])
 		}
 		if got != fmt.Sprint(want) {
-			fail(fmt.Sprintf("{{ %s }} prints %q, conventional value %v", src, got, want))
+			fail(fmt.Sprintf("%s: %s prints %q, conventional value %v", pos, src, got, want))
 		}
 	case "attr":
 		m := c13TitleRe.FindStringSubmatch(out)
@@ -404,6 +409,11 @@ func c13Funcs() vuego.FuncMap {
 		"strict":  func(s string) string { return "<" + s + ">" },
 		"u8":      func(u uint8) uint8 { return u + 1 },
 		"pair":    func(a any, b any) any { return fmt.Sprint(a, "+", b) },
+		// registered under names that expr-lang also has built-ins for: the registered function is the one a template calls
+		"abs":   func(i int) string { return fmt.Sprintf("ABS(%d)", i) },
+		"max":   func(a, b int) string { return fmt.Sprintf("MAX(%d,%d)", a, b) },
+		"first": func(xs []any) string { return fmt.Sprintf("FIRST-OF-%d", len(xs)) },
+		"split": func(s string) string { return "SPLIT:" + s },
 	}
 }
 
@@ -433,6 +443,12 @@ func c13Pipes() []c13Pipe {
 		{"too few args in a chain", "s | upper | default | lower", "", "default"}, {"exact args, any-typed custom", "s | pair(n)", "hello+7", ""},
 		{"impossible conversion", "lst | double", "", "double"}, {"non numeric string", "s | double", "", "double"}, {"function error", "s | fail", "", "fail"}, {"function error text", "s | fail", "", "boom-hello"},
 		{"direct unknown", "nosuch3(n)", "", "nosuch3"},
+		// functions whose names expr-lang also knows as built-ins: the registered function answers, in every position and call form
+		{"registered abs, direct", "abs(n)", "ABS(7)", ""}, {"registered abs, piped", "n | abs", "ABS(7)", ""}, {"registered max, direct", "max(n, m)", "MAX(7,3)", ""},
+		{"registered first, direct", "first(lst)", "FIRST-OF-3", ""}, {"registered split, direct", "split(s)", "SPLIT:hello", ""}, {"registered abs then upper", "abs(m) | lower", "abs(3)", ""},
+		{"built-in len of a multi-byte string, direct", "len(uni)", "6", ""}, {"built-in len of a multi-byte string, piped", "uni | len", "6", ""},
+		{"built-in type of a float, direct", "type(fl)", "float64", ""}, {"built-in type of a map, direct", "type(obj)", "map[string]interface {}", ""}, {"built-in type of a list, piped", "lst | type", "[]interface {}", ""},
+		{"built-in upper of a multi-byte string", "upper(uni)", "ŽÁBA", ""},
 	}
 }
 
@@ -447,6 +463,8 @@ func c13PipeCase(p c13Pipe, pos string) *Case {
 		tpl = `<p v-if="` + strings.ReplaceAll(p.expr, `"`, `'`) + `">[[T]]</p><p v-else>[[F]]</p>`
 	case "show":
 		tpl = `<p v-show="` + strings.ReplaceAll(p.expr, `"`, `'`) + `">x</p>`
+	case "tplbound":
+		tpl = `<template :bv="` + strings.ReplaceAll(p.expr, `"`, `'`) + `"><p>[[{{ bv }}]]</p></template>`
 	}
 	res := renderPage(map[string]string{"p.vuego": tpl}, "p.vuego", c13Env, vuego.WithFuncs(c13Funcs()))
 	c := &Case{Name: "pipe " + pos + ": " + p.desc, Input: map[string]any{"stream": "pipe", "desc": p.desc, "pos": pos}, Impl: res.canon(), Oracle: &Verdict{OK: true}, Key: "pipe|" + pos + "|" + p.desc + p.wantErr, Tags: []string{"stream:pipe", "pos:" + pos}}
@@ -472,10 +490,10 @@ func c13PipeCase(p c13Pipe, pos string) *Case {
 		return c
 	}
 	switch pos {
-	case "text":
+	case "text", "tplbound":
 		m := regexp.MustCompile(`\[\[(.*?)\]\]`).FindStringSubmatch(res.Out)
 		if m == nil || htmlUnescape(m[1]) != p.want {
-			c.Oracle = &Verdict{OK: false, Class: cls, Detail: fmt.Sprintf("{{ %s }} prints %q, expected %q", p.expr, res.Out, p.want)}
+			c.Oracle = &Verdict{OK: false, Class: cls, Detail: fmt.Sprintf("%s: %s prints %q, expected %q", pos, p.expr, res.Out, p.want)}
 		}
 	case "attr":
 		m := c13TitleRe.FindStringSubmatch(res.Out)
@@ -536,7 +554,7 @@ func runC13(r *Run, replay *Case) {
 	if r.Thorough() {
 		n, depth = 15000, 3
 	}
-	positions := []string{"text", "attr", "if", "elseif", "show"}
+	positions := []string{"text", "attr", "if", "elseif", "show", "tplbound", "tplbound-vif"}
 	styles := []c13Style{{true, "'", false}, {false, "'", false}, {true, `"`, false}, {true, "'", true}}
 	for i := 0; i < n; i++ {
 		var e *c13Expr
@@ -554,8 +572,13 @@ func runC13(r *Run, replay *Case) {
 		}
 	}
 	for _, p := range c13Pipes() {
-		for _, pos := range []string{"text", "attr", "if", "show"} {
+		for _, pos := range []string{"text", "attr", "if", "show", "tplbound"} {
 			if pos != "text" && strings.HasPrefix(p.desc, "textonly:") {
+				continue
+			}
+			// the variable-binding attributes of a plain <template> are an undocumented position: only the VALUE of an expression that has
+			// one is compared there (it falls back to nil on errors by design; the error clause of the statement is not demanded of it)
+			if pos == "tplbound" && p.wantErr != "" {
 				continue
 			}
 			r.Add(c13PipeCase(p, pos))
